@@ -569,14 +569,16 @@ func parseFailures(c *Ctx, id string) {
 	if f := w.Func("helpers", "convertSizeUnitToByte"); f != nil {
 		n += failsWhereItFailed(c, id, "parse", f)
 	}
-	if f := w.Func("helpers", "ResolveUnionIntOrStringValue"); f != nil {
-		// (ParseInt's failure is the cue to try the unit parser, not an error: only the unit parser's failure is fatal)
-		c.see(f)
-		allInstrs(f, func(in ssa.Instruction) {
-			call, ok := in.(*ssa.Call)
-			if !ok || call.Common().StaticCallee() == nil || call.Common().StaticCallee().Name() != "convertSizeUnitToByte" {
-				return
+	if conv := w.Func("helpers", "convertSizeUnitToByte"); conv != nil {
+		// (ParseInt's failure is the cue to try the unit parser, not an error: only the unit parser's failure is fatal —
+		// wherever the resolver, or a per-type resolver of its table, asks the unit parser)
+		for _, cs := range w.callersOf(conv) {
+			f := cs.Fn
+			call, ok := cs.Call.(*ssa.Call)
+			if !ok || pkgPathOf(f) != pkgPathOf(conv) {
+				continue
 			}
+			c.see(f)
 			n++
 			fatal := false
 			if ers := errResults(call); len(ers) > 0 {
@@ -587,8 +589,8 @@ func parseFailures(c *Ctx, id string) {
 					}
 				})
 			}
-			c.Check(fatal, id, "parse:unit-string-fatal", in.Pos(), "a size string that is neither an integer nor number+unit is fatal", "a size string that cannot be parsed does not stop the client where the unit parser failed")
-		})
+			c.Check(fatal, id, "parse:unit-string-fatal", call.Pos(), "a size string that is neither an integer nor number+unit is fatal", "a size string that cannot be parsed does not stop the client where the unit parser failed")
+		}
 	}
 	if n < 2 {
 		c.Undecided(id, "parse-floor", 0, "only %d parse steps found (2 on the reference tree)", n)
